@@ -142,6 +142,8 @@ def iterate_ds(ds, r):
             opened.append(OPENS[0])
             if delay:
                 _t.sleep(delay)
+            if r.get("pause") and len(out) == r.get("pause_after", 1):
+                _t.sleep(r["pause"])
             if take is not None and len(out) >= take:
                 break
     r["_opened"] = opened
@@ -297,11 +299,18 @@ def reference(root):
     return ref
 
 
+def progress(rec):
+    p = os.environ.get("VERIF_PROGRESS")
+    if p:
+        with open(p, "a") as f:
+            f.write(json.dumps(rec) + "\n")
+
+
 def main():
     req = json.load(sys.stdin)
     res = []
     hung = False
-    for job in req["jobs"]:
+    for ji, job in enumerate(req["jobs"]):
         tmp = tempfile.mkdtemp(prefix="verif_iter_")
         try:
             try:
@@ -319,11 +328,14 @@ def main():
                 res.append({"build_error": f"{type(ex).__name__}: {ex}"[:300]})
                 continue
             outs = []
-            for r in job["requests"]:
+            progress({"job": ji, "reference": ref, "damaged_index": dmg_idx, "decoder_rejects": rejected if job.get("damage") else None})
+            for qi, r in enumerate(job["requests"]):
                 if hung:
                     outs.append({"skipped": True})
                     continue
+                progress({"job": ji, "start": qi})
                 o = run_request(root, r, req.get("timeout", 60))
+                progress({"job": ji, "req": qi, "result": o})
                 if o.get("hang"):
                     hung = True
                 outs.append(o)
